@@ -58,4 +58,18 @@ PROPS = {
                                   "is NOT a theorem: it is evaluated per explored input in exact rational arithmetic (Spec/C09.lean)"],
         assumptions=["finite ordinates of magnitude <= 2^200", "rings are closed (first vertex = last vertex) for the area oracle"],
     ),
+    "C16": dict(
+        modules=["GeomVerif.Properties.C16"],
+        n_quick=8000, n_thorough=120000, thorough_seeds=4, min_theorems=4,
+        rule="histories: build a value (Point, LineString, LinearRing, Polygon, MultiLineString, MultiPoint, MultiPolygon, Bounds incl. inverted "
+             "dimensions, Coord; nil, empty-with-capacity and non-empty slices, half of them inside arrays with spare capacity, incl. the outer "
+             "slice of MultiPolygon rows), Clone it, then 0..8 public mutations of the original or the clone (write an ordinate through "
+             "FlatCoords(), Reverse, TransformInPlace, Push incl. empty parts, SetCoords, Bounds.Set, and as a last step writing an end offset); "
+             "after the clone and after every mutation both values are snapshotted bit for bit (nil-ness included). Oracle: the snapshots must "
+             "equal those of two independent values. non-trivial = history text longer than 24 characters",
+        trusted_base=TB_COMMON + ["modelled: derived.gen.go deep copy (make+copy per non-nil slice, nil preserved, scalars by value); Go slice/append semantics "
+                                  "(in place iff capacity allows) as Model/Heap.lean; the outer [][]int header array of MultiPolygon is held by value in the model",
+                                  "geometry-level mutators are compiled to slice operations in Model/HeapGeom.lean (validated by the correspondence)"],
+        assumptions=["each slice of an object starts in its own array (sub-slices of one caller array are not generated)"],
+    ),
 }
